@@ -163,11 +163,15 @@ Rot == (Len(ins) + st.nb + 2 * st.np + 3 * st.nr + st.na)
 StylesFor == IF Mode = "esc" THEN EscapeStyles
              ELSE IF Mode = "args" THEN {<<"default", "plain", "uni", "unknown">>[(Rot % 4) + 1]}
              ELSE IF Len(ins) = 1 THEN NameStyles \cup EscapeStyles
+                    \cup (IF ins[1].op \in {"TakeFromWorktop", "PopFromAuthZone", "AllocateGlobalAddress"} THEN CharStyles ELSE {})
              ELSE {"default", RotStyles[(Rot % 3) + 1]}
 CaseOf(style) ==
   [fam |-> fam, pre |-> pre, children |-> children, blobs |-> 2 + (Len(ins) % 2), names |-> style,
    given |-> NameLists(st, IF style = "unknown" THEN "default" ELSE style), ins |-> ins,
    exp |-> ExpectedNames(st, style), depth |-> ArgDepth(ins),
    dec_exp |-> IF \E j \in 1..Len(ins) : ins[j].raw THEN "err" ELSE "ok"]
+\* the variant table of the custom leaves (for the driver's non-vacuity check)
+ASSUME PrintT(<<"V", ToJson([required |-> RequiredVariants,
+                            table |-> [j \in 1..NLeaves |-> [t |-> Leaves[j].t, s |-> Leaves[j].s, v |-> Variant(Leaves[j])]]])>>)
 Emit == (Len(ins) >= 1 /\ ~InPrefix) => \A s \in StylesFor : PrintT(<<"B", ToJson(CaseOf(s))>>)
 =============================================================================
